@@ -9,9 +9,9 @@ NOTES = ("All checks are bounded-exhaustive explorations of the real libnop head
          "Known findings live in known_findings.json.")
 
 
-def B(name, src, flavor="gcc", defs=(), ldflags=(), cflags=(), gen=False):
+def B(name, src, flavor="gcc", defs=(), ldflags=(), cflags=(), gen=False, deps=()):
     spec = dict(name=name, src=list(src if isinstance(src, (list, tuple)) else [src]), flavor=flavor,
-                defs=list(defs), ldflags=list(ldflags), cflags=list(cflags), gen=gen)
+                defs=list(defs), ldflags=list(ldflags), cflags=list(cflags), gen=gen, deps=list(deps))
     BINS[name] = spec
     return spec
 
@@ -63,3 +63,145 @@ CHECKS["C20"] = dict(
 ENGINES.append(dict(name="scalar-lab", path="checks/c20_endian.cpp, checks/c18_siphash.cpp",
                     serves_properties=["C18", "C20"],
                     kind_free_text="stateless exhaustive enumeration of scalar inputs against independent oracles"))
+
+
+# ----------------------------------------------------------------------------------------------- codec-lab
+WRAP = ["-Wl,--wrap=read,--wrap=write,--wrap=close"]
+CODEC_DEPS = ["checks/codec_hostile.inc", "checks/codec_controls.inc"]
+NQ, NT = 16, 32
+
+
+def codec_bins(flavor, thorough):
+    n = NT if thorough else NQ
+    out = []
+    for i in range(n):
+        name = "codec_%s_%s%02d" % (flavor, "t" if thorough else "q", i)
+        if name not in BINS:
+            B(name, ["checks/codec.cpp", "harness/support.cpp"], flavor,
+              defs=["SHARD=%d" % i, "NSHARDS=%d" % n] + (["THOROUGH"] if thorough else []), ldflags=WRAP, deps=CODEC_DEPS)
+        out.append(BINS[name])
+    return out
+
+
+def codec_jobs(prop, flavors=("gcc",), san_extra=()):
+    def jobs(tier):
+        js = []
+        for fl in flavors:
+            for b in codec_bins(fl, tier == "thorough"):
+                extra = list(san_extra) if (fl != "gcc" and tier == "quick") else []
+                js.append(job(b, "--prop", prop, "--tier", tier, *extra))
+        return js
+    return jobs
+
+
+# register every shard binary up front so that `verif replay` can find them by name
+for _fl in ("gcc", "asan"):
+    codec_bins(_fl, False)
+    codec_bins(_fl, True)
+
+CODEC_UNIVERSE = ("type universe of harness/universe.h: every leaf type, every type constructor over one representative "
+                  "per element class, every ordered pair of directly nested constructors, and deeper spine samples "
+                  "(quick ~430 types, thorough ~520); value domains of harness/domain.h (integer class boundaries, "
+                  "2^k+-1, lane-distinct patterns, byte lengths on every length-prefix class boundary, containers of "
+                  "0/1/2/3/127/128(/255/256) elements, empty/engaged Optional/Result/Variant/Entry, NaN payloads)")
+
+CHECKS["C03"] = dict(
+    engine="codec-lab", level="exploration", jobs=codec_jobs("C03"),
+    level_text="for every type of the universe and every value of its domain the bytes produced by the real Serializer "
+               "are compared byte for byte with an independent schema-directed encoder written from docs/format.md; "
+               "the same object is written twice and must give identical bytes",
+    level_note="trusts the reference encoder (harness/refcodec.h, rules R1-R9) and the bridges (harness/bridge.h) that "
+               "map C++ objects to value trees without going through libnop; " + CODEC_UNIVERSE,
+    technique="bounded exhaustive enumeration (type x value) against a reference model",
+    rule="one case per (type, value); non-trivial = the encoding is longer than one byte; cases are de-duplicated by "
+         "hashing the case id (values are already unique per type by their reference encoding)",
+    assumptions=R_ASSUME + ["lengths between the enumerated boundaries behave like the boundaries of the same prefix class"],
+    bounds=dict(quick="quick universe, composite products capped at 300 values per type (narrowing is deterministic)",
+                thorough="thorough universe, cap 3000"),
+    floor=dict(evaluations=dict(quick=5000, thorough=20000)),
+)
+
+CHECKS["C01"] = dict(
+    engine="codec-lab", level="exploration", jobs=codec_jobs("C01"),
+    level_text="for every type and value: written by each of 13 library writer rigs (Buffer, Pedantic, Constexpr, Stream, "
+               "Fd, BoundedWriter over each, limit- and inner-constrained) and every distinct byte string produced is "
+               "read back by each of 10 reader rigs (Buffer, Pedantic, Stream, Fd, BoundedReader over each with exact "
+               "and huge limit); value equality (bit-exact floats, maps as sets), exact consumption, ordered pairs and "
+               "whole-domain sequences on one stream; over-capacity logical buffers must be rejected",
+    level_note="pairings that do not compile are omitted by capability (float on ConstexprBufferWriter, tables on Fd*); "
+               "handle-bearing types are covered by C15; " + CODEC_UNIVERSE,
+    technique="bounded exhaustive enumeration (type x value x writer x reader x sequence) against a reference model",
+    rule="one case per (type, value-or-sequence label, writer, reader); non-trivial = more than one byte on the wire; "
+         "distinct by case-id hash",
+    assumptions=R_ASSUME,
+    bounds=dict(quick="quick universe; sequences: all ordered pairs of <= 6 values per type + the whole domain on one stream",
+                thorough="thorough universe"),
+    floor=dict(evaluations=dict(quick=100000, thorough=500000)),
+)
+
+CHECKS["C05"] = dict(
+    engine="codec-lab", level="fault_enumeration", jobs=codec_jobs("C05"),
+    level_text="every strict prefix (every cut 0 <= k < len) of every enumerated valid encoding is fed to every library "
+               "reader rig; any success is a violation",
+    level_note="the reference encoder produces the valid encodings; table cross-version truncations (cuts inside skipped "
+               "entries and padding) are explored by the table-lab part of this check; " + CODEC_UNIVERSE,
+    technique="deviation-bounded exhaustive exploration (the cut point is the single deviation; all positions)",
+    rule="one case per (type, value, reader rig, cut k); all tuples are distinct by construction; non-trivial = encoding "
+         "longer than one byte",
+    assumptions=R_ASSUME,
+    bounds=dict(quick="quick universe without the 64 KiB boundary strings; every cut", thorough="thorough universe incl. 64 KiB strings; every cut"),
+    floor=dict(evaluations=dict(quick=500000, thorough=2000000)),
+)
+
+CHECKS["C06"] = dict(
+    engine="codec-lab", level="exploration", jobs=codec_jobs("C06", ("gcc", "asan"), san_extra=("--near",)),
+    level_text="GetSize(v) against the reference encoding length (>=, and == without handles) and a sweep of every buffer "
+               "capacity 0..GetSize+1 over BufferWriter, PedanticBufferWriter, ConstexprBufferWriter and BoundedWriter over "
+               "each (limit- and inner-constrained): >= GetSize must succeed with exactly the reference bytes, smaller must "
+               "return WriteLimitReached with zero bytes written and canaries / ASan redzones after the exact-size block intact",
+    level_note="buffers are exact-size heap blocks from an opaque allocator; gcc build uses 64-byte canaries, clang build "
+               "AddressSanitizer+UBSan with a report hook; capacities of encodings longer than 700 bytes are swept fully "
+               "at both ends and with stride 61 in between; " + CODEC_UNIVERSE,
+    technique="bounded exhaustive enumeration (type x value x capacity x writer) with sanitizer monitors",
+    rule="one case per (type, value, writer rig, capacity) plus one GetSize case per (type, value); distinct by "
+         "construction; non-trivial = encoding longer than one byte",
+    assumptions=R_ASSUME,
+    bounds=dict(quick="quick universe, every capacity 0..GetSize+1", thorough="thorough universe"),
+    floor=dict(evaluations=dict(quick=500000, thorough=2000000)),
+)
+
+CHECKS["C10"] = dict(
+    engine="codec-lab", level="fault_enumeration", jobs=codec_jobs("C10"),
+    level_text="for every type and value the clean run's primitive-call sequence on a logging reader/writer is recorded, "
+               "then the run is repeated once per call index k and error code e with call k answering e: the returned "
+               "status must be e, no call may follow call k, a failed Prepare leaves zero bytes written",
+    level_note="probe reader/writer (harness/rigs.h) implement the Reader/Writer concept incl. handle channel; tables put "
+               "BoundedReader/Writer on the path; quick uses 7 representative error codes, thorough all 18; "
+               + CODEC_UNIVERSE,
+    technique="deviation-bounded exhaustive exploration (one injected I/O error at every primitive-call index)",
+    rule="one case per (type, value, direction, call index, error code); distinct by construction",
+    assumptions=R_ASSUME,
+    bounds=dict(quick="depth-1 domains (<= 40 values per type), 7 error codes, every call index",
+                thorough="full domains (<= 200 values per type), all 18 error codes"),
+    floor=dict(evaluations=dict(quick=200000, thorough=1000000)),
+)
+
+CHECKS["C11"] = dict(
+    engine="codec-lab", level="model_checking", jobs=codec_jobs("C11"),
+    level_text="explicit-state search over destination-object states: from a fresh object, every reachable state is "
+               "expanded with assign(v), read(enc(v)), read failing at every primitive-call index and at every truncation "
+               "point; after every successful read the object must equal the value read into a fresh object and the "
+               "reader must sit exactly at the end; same history replayed twice must give the same state",
+    level_note="state identity = canonical value tree of the object (maps sorted); 4 (quick) / 6 (thorough) values per "
+               "type chosen to differ in size and emptiness; depth 3 / 4; " + CODEC_UNIVERSE,
+    technique="explicit-state model checking of the implementation (BFS over operation histories replayed on fresh objects)",
+    rule="states = distinct canonical destination states reached; transitions = operations executed on the real object",
+    assumptions=R_ASSUME,
+    bounds=dict(quick="depth 3, <= 600 states per type", thorough="depth 4, <= 4000 states per type"),
+    floor=dict(transitions=dict(quick=100000, thorough=500000)),
+)
+
+ENGINES.append(dict(name="codec-lab", path="checks/codec.cpp + harness/",
+                    serves_properties=["C01", "C02", "C03", "C04", "C05", "C06", "C10", "C11"],
+                    kind_free_text="type-universe x value-domain explorer over the real Serializer/Deserializer and every "
+                                   "library reader/writer, reference codec from docs/format.md, forked per type"))
